@@ -46,17 +46,35 @@ pred isLowerBound(items []index.Item, offset int64, pos int64) :=
     exists k :: 0 <= k && k < len(items) && pos == items[k].Position
                 && items[k].Offset >= offset && (k == 0 || items[k-1].Offset < offset)
 
+// ================================================================ lock discipline (C08)
+// Every access to a guarded field needs its lock (read: R or W, write: W) unless the object was
+// allocated by the call itself; every lock taken is released on every path.
+
+// no writerIndex lock / no reader lock is held by the current call
+pred ixLocksFree() := forall w *writerIndex :: held(&w.mu) == 0
+pred rdLocksFree() := forall q *reader :: held(&q.indexMu) == 0 && held(&q.messagesMu) == 0
+
+guarded_by log.readers readersMu
+guarded_by log.writer writerMu
+guarded_by writerIndex.items mu
+guarded_by writerIndex.keys mu
+guarded_by reader.index indexMu
+guarded_by reader.messages messagesMu
+
 // ================================================================ readerIndex / writerIndex (C03, C04, C10)
 
 iface indexer.GetNextOffset
+    requires[locks] isWIx(self) ==> held(&self.(*writerIndex).mu) == 0
     requires ixWf(self)
     ensures err == nil && ret0 == ixNext(self)
 
 iface indexer.Len
+    requires[locks] isWIx(self) ==> held(&self.(*writerIndex).mu) == 0
     requires ixWf(self)
     ensures ret0 == len(ixItems(self))
 
 iface indexer.Consume
+    requires[locks] isWIx(self) ==> held(&self.(*writerIndex).mu) == 0
     requires ixWf(self)
     // caught up: nothing at or after the request in a head segment
     ensures[caughtup] (len(ixItems(self)) == 0 || (!relative(offset) && offset > ixItems(self)[len(ixItems(self))-1].Offset))
@@ -76,6 +94,7 @@ iface indexer.Consume
     ensures[errs]     err == nil || err == index.ErrOffsetAfterEnd || err == index.ErrOffsetIndexEmpty
 
 iface indexer.Get
+    requires[locks] isWIx(self) ==> held(&self.(*writerIndex).mu) == 0
     requires ixWf(self)
     ensures[found]    !relative(offset) ==>
                         forall k :: 0 <= k && k < len(ixItems(self)) && ixItems(self)[k].Offset == offset ==> err == nil && ret0 == ixItems(self)[k].Position
@@ -96,6 +115,7 @@ iface indexer.Get
                       || err == index.ErrOffsetNotFound || err == message.ErrInvalidOffset
 
 iface indexer.Time
+    requires[locks] isWIx(self) ==> held(&self.(*writerIndex).mu) == 0
     requires ixWf(self) && monoTs(ixItems(self))
     ensures[empty]  len(ixItems(self)) == 0 ==> err == index.ErrTimeIndexEmpty
     ensures[before] len(ixItems(self)) > 0 && ts < ixItems(self)[0].Timestamp ==> err == index.ErrTimeBeforeStart
@@ -109,6 +129,7 @@ iface indexer.Time
 // I8 (key tree consistent with the items) is ASSUMED at this interface: the candidates of a hash
 // are exactly the positions of the items carrying that hash, in ascending order
 iface indexer.Keys
+    requires[locks] isWIx(self) ==> held(&self.(*writerIndex).mu) == 0
     requires ixWf(self)
     ensures[errs]      err == nil || err == index.ErrKeyNotFound
     ensures[notfound]  (forall k :: 0 <= k && k < len(ixItems(self)) ==> ixItems(self)[k].KeyHash != decodeHash(bseq(hash))) ==> err == index.ErrKeyNotFound
@@ -136,18 +157,28 @@ func (*readerIndex).Time
     requires wfItems(ix.items, ix.nextOffset) && monoTs(ix.items)
 
 func (*writerIndex).GetNextOffset
+    flags locks
+    requires[locks] held(&ix.mu) == 0
     refines indexer.GetNextOffset
     ensures err == nil && ret0 == ix.nextOffset
 func (*writerIndex).Len
+    flags locks
+    requires[locks] held(&ix.mu) == 0
     refines indexer.Len
     ensures ret0 == len(ix.items)
 func (*writerIndex).Consume
+    flags locks
+    requires[locks] held(&ix.mu) == 0
     refines indexer.Consume
     requires wfItems(ix.items, ix.nextOffset)
 func (*writerIndex).Get
+    flags locks
+    requires[locks] held(&ix.mu) == 0
     refines indexer.Get
     requires wfItems(ix.items, ix.nextOffset)
 func (*writerIndex).Time
+    flags locks
+    requires[locks] held(&ix.mu) == 0
     refines indexer.Time
     requires wfItems(ix.items, ix.nextOffset) && monoTs(ix.items)
 
@@ -188,18 +219,24 @@ func newReaderIndex
 
 // loads (or rebuilds) the index lazily; the I/O below it is assumed: see ReindexAndReadIndex
 func (*reader).getIndexMarked
+    flags locks
+    requires[locks] rdLocksFree() && ixLocksFree()
     requires rdWf(r)
     assigns r.index
     ensures err == nil ==> ixAgrees(ret0, r) && r.index == ret0
     ensures err != nil ==> r.index == old(r.index) && ioerr(err)
 
 func (*reader).getIndexNow
+    flags locks
+    requires[locks] rdLocksFree() && ixLocksFree()
     requires rdWf(r)
     assigns r.index, r.indexLastAccess
     ensures err == nil ==> ixAgrees(ret0, r) && r.index == ret0
     ensures err != nil ==> r.index == old(r.index) && ioerr(err)
 
 func (*reader).getIndexAt
+    flags locks
+    requires[locks] rdLocksFree() && ixLocksFree()
     requires rdWf(r)
     assigns r.index, r.indexLastAccess
     ensures err == nil ==> ixAgrees(ret0, r) && r.index == ret0
@@ -207,19 +244,24 @@ func (*reader).getIndexAt
 
 // opens the mmap reader lazily (I/O assumed: the reader sees the segment's file)
 func (*reader).getMessages
-    flags assumed
+    flags locks
+    requires[locks] held(&r.messagesMu) == 0
     requires rdWf(r)
     assigns r.messages, r.messagesInuse
     ensures err == nil ==> ret0 != nil && ret0.gfile == r.gfile && r.messages == ret0
-    ensures err != nil ==> r.messages == old(r.messages) && ioerr(err)
+    ensures err != nil ==> r.messages == old(r.messages) && (ioerr(err) || is(err, message.ErrCorrupted))
 
 func (*reader).GetNextOffset
+    flags locks
+    requires[locks] rdLocksFree() && ixLocksFree()
     requires rdWf(r)
     assigns r.index, r.indexLastAccess
     ensures err == nil ==> ret0 == r.gnext
     ensures rdWf(r)
 
 func (*reader).Consume
+    flags locks
+    requires[locks] rdLocksFree() && ixLocksFree()
     requires rdWf(r)
     requires[count] 1 <= maxCount && maxCount <= 1048576
     assigns r.index, r.indexLastAccess, r.messages, r.messagesInuse
@@ -250,6 +292,8 @@ func (*reader).Consume
     ensures[failed]   err != nil ==> ret0 == OffsetInvalid && len(ret1) == 0
 
 func (*reader).Get
+    flags locks
+    requires[locks] rdLocksFree() && ixLocksFree()
     requires rdWf(r)
     assigns r.index, r.indexLastAccess, r.messages, r.messagesInuse
     ensures[wf]      rdWf(r)
@@ -292,6 +336,8 @@ pred live(l *log, o int64) :=
     exists i, k :: 0 <= i && i < len(l.readers) && 0 <= k && k < len(l.readers[i].gitems) && l.readers[i].gitems[k].Offset == o
 
 func (*log).Consume
+    flags locks
+    requires[locks] nolocks()
     requires logWf(l)
     requires[count] 1 <= maxCount && maxCount <= 1048576
     assigns reader.index, reader.indexLastAccess, reader.messages, reader.messagesInuse
@@ -343,6 +389,8 @@ func (*log).Consume
         at return 2
 
 func (*log).NextOffset
+    flags locks
+    requires[locks] nolocks()
     requires logWf(l) && (l.opts.Readonly || l.writer != nil && l.writer.index != nil && l.writer.index.nextOffset == logNext(l))
     assigns reader.index, reader.indexLastAccess
     ensures err == nil ==> ret0 == logNext(l)
@@ -352,6 +400,8 @@ func (*log).NextOffset
 // ---------------------------------------------------------------- Get (C04)
 
 func (*log).Get
+    flags locks
+    requires[locks] nolocks()
     requires logWf(l)
     assigns reader.index, reader.indexLastAccess, reader.messages, reader.messagesInuse
     ensures[wf]       logWf(l)
@@ -378,6 +428,8 @@ lemma getAgreesConsume(l *log, o int64, first int64)
 // ---------------------------------------------------------------- time lookups (C10)
 
 func (*reader).GetByTime
+    flags locks
+    requires[locks] rdLocksFree() && ixLocksFree()
     requires rdWf(r)
     assigns r.index, r.indexLastAccess, r.messages, r.messagesInuse
     ensures[wf]      rdWf(r)
@@ -410,6 +462,8 @@ pred tieAt(l *log, ts int64) :=
 pred headEmpty(l *log) := len(l.readers[len(l.readers)-1].gitems) == 0
 
 func (*log).GetByTime
+    flags locks
+    requires[locks] nolocks()
     requires logWf(l) && logMonoTs(l)
     assigns reader.index, reader.indexLastAccess, reader.messages, reader.messagesInuse
     ensures[wf]       logWf(l)
@@ -435,6 +489,8 @@ func (*log).GetByTime
       decreases i + 1
 
 func (*log).OffsetByTime
+    flags locks
+    requires[locks] nolocks()
     requires logWf(l) && logMonoTs(l)
     assigns reader.index, reader.indexLastAccess, reader.messages, reader.messagesInuse
     ensures[wf]  logWf(l)
@@ -709,6 +765,8 @@ func DeleteMultiOffsets
 // ---------------------------------------------------------------- (*log).Delete entry guards (C12, C19)
 
 func (*log).findDeleteReader
+    flags locks
+    requires[locks] held(&l.readersMu) == 0
     requires logWf(l)
     ensures[relative] (len(offsets) == 0 || (exists o int64 :: has(offsets, o) && o < 0)) ==> err == errDeleteRelative
     // the target is the segment holding the lowest requested offset
@@ -813,6 +871,8 @@ lemma deletesKeepLatest(l Log, s map[int64]struct{}, o int64)
 pred recHasKey(f int, k int, key []byte) := recKey(f, k) == bseq(key)
 
 func (*reader).GetByKey
+    flags locks
+    requires[locks] rdLocksFree() && ixLocksFree()
     requires rdWf(r) && r.params.Keys
     requires[hash] decodeHash(bseq(keyHash)) == keyHash(bseq(key))
     assigns r.index, r.indexLastAccess, r.messages, r.messagesInuse
@@ -846,6 +906,8 @@ pred liveKey(l *log, key []byte, o int64) :=
 pred noKeyIn(r *reader, key []byte) := forall k :: 0 <= k && k < len(r.gitems) ==> !recHasKey(r.gfile, k, key)
 
 func (*log).GetByKey
+    flags locks
+    requires[locks] nolocks()
     requires logWf(l) && (forall i :: 0 <= i && i < len(l.readers) ==> l.readers[i].params.Keys == l.opts.KeyIndex)
     assigns reader.index, reader.indexLastAccess, reader.messages, reader.messagesInuse
     ensures[wf]       logWf(l)
@@ -864,11 +926,108 @@ func (*log).GetByKey
       decreases i + 1
 
 func (*log).OffsetByKey
+    flags locks
+    requires[locks] nolocks()
     requires logWf(l) && (forall i :: 0 <= i && i < len(l.readers) ==> l.readers[i].params.Keys == l.opts.KeyIndex)
     assigns reader.index, reader.indexLastAccess, reader.messages, reader.messagesInuse
     ensures[wf]       logWf(l)
     ensures[noindex]  !l.opts.KeyIndex ==> is(err, ErrNoIndex)
     ensures[hit]      l.opts.KeyIndex && err == nil ==> liveKey(l, key, ret0)
     ensures[greatest] l.opts.KeyIndex && err == nil ==> forall o int64 :: liveKey(l, key, o) ==> o <= ret0
+
+
+// ================================================================ lock discipline of the remaining entry points (C08)
+// Units flagged `lockonly` carry ONLY the lock-discipline obligations: guarded accesses hold their
+// lock, no self-deadlock, every lock released on every path (callees without lock operations are
+// abstracted). The functional behaviour of these functions is under C01/C02/C12.
+
+func (*writerIndex).getLastOffset
+    flags locks
+    requires[locks] held(&ix.mu) == 0
+    requires len(ix.items) > 0
+func (*writerIndex).append
+    flags locks lockonly noframe
+    requires[locks] held(&ix.mu) == 0
+func (*writerIndex).reader
+    flags locks lockonly noframe
+    requires[locks] held(&ix.mu) == 0
+func (*writerIndex).Keys
+    flags locks lockonly noframe
+    requires[locks] held(&ix.mu) == 0
+func (*reader).closeIndex
+    flags locks lockonly noframe
+    requires[locks] held(&r.indexMu) == 0
+func (*reader).GC
+    flags locks lockonly noframe
+    requires[locks] rdLocksFree()
+func (*reader).Close
+    flags locks lockonly noframe
+    requires[locks] rdLocksFree()
+func (*reader).Delete
+    flags locks lockonly noframe
+    requires[locks] rdLocksFree()
+func (*reader).ConsumeByKey
+    flags locks lockonly noframe
+    requires[locks] rdLocksFree() && ixLocksFree()
+    requires rdWf(r)
+    loop 1
+      invariant[locks] rdLocksFree() && ixLocksFree()
+func (*writer).Publish
+    flags locks lockonly noframe
+    requires[locks] ixLocksFree()
+    loop 1
+      invariant[locks] ixLocksFree()
+func (*writer).Close
+    flags locks lockonly noframe
+    requires[locks] rdLocksFree()
+func (*writer).ReopenReader
+    flags locks lockonly noframe
+    requires[locks] ixLocksFree()
+func (*writer).Delete
+    flags locks lockonly noframe
+    requires[locks] rdLocksFree() && ixLocksFree()
+func (*log).Publish
+    flags locks lockonly noframe
+    requires[locks] nolocks()
+func (*log).ConsumeByKey
+    flags locks lockonly noframe
+    requires[locks] nolocks()
+    requires logWf(l)
+    loop 1
+      invariant[wf]    logWf(l) && 0 <= segmentIndex && segmentIndex < len(l.readers) && rdr == l.readers[segmentIndex]
+      invariant[locks] held(&l.readersMu) == 1 && rdLocksFree() && ixLocksFree()
+func (*log).Delete
+    flags locks lockonly noframe
+    requires[locks] nolocks()
+func (*log).delete
+    flags locks lockonly noframe
+    requires[locks] held(&l.deleteMu) == 2 && held(&l.writerMu) == 0 && held(&l.readersMu) == 0 && rdLocksFree() && ixLocksFree()
+    loop 1
+      invariant[locks] held(&l.readersMu) == 2 && held(&l.deleteMu) == 2 && held(&l.writerMu) == 0
+func (*log).Stat
+    flags locks lockonly noframe
+    requires[locks] nolocks()
+    loop 1
+      invariant[locks] held(&l.readersMu) == 1 && (forall a int :: a != &l.readersMu ==> heldAt(a) == 0)
+func (*log).Backup
+    flags locks lockonly noframe
+    requires[locks] nolocks()
+    loop 1
+      invariant[locks] held(&l.readersMu) == 1 && (forall a int :: a != &l.readersMu ==> heldAt(a) == 0)
+func (*log).Sync
+    flags locks lockonly noframe
+    requires[locks] nolocks()
+func (*log).GC
+    flags locks lockonly noframe
+    requires[locks] nolocks()
+    loop 1
+      invariant[locks] held(&l.readersMu) == 1 && (forall a int :: a != &l.readersMu ==> heldAt(a) == 0)
+func (*log).Close
+    flags locks lockonly noframe
+    requires[locks] nolocks()
+    loop 1
+      invariant[locks] held(&l.readersMu) == 2 && (forall a int :: a != &l.readersMu ==> heldAt(a) == 0)
+    loop 2
+      invariant[locks] held(&l.readersMu) == 2 && held(&l.writerMu) == 2 && (forall a int :: a != &l.readersMu && a != &l.writerMu ==> heldAt(a) == 0)
 
 @*/
